@@ -341,7 +341,12 @@ class Typed:
     def _reused(self, t):
         p = self.pool[t]
         if p and self.rng.random() < self.reuse:
-            return pick(self.rng, p)
+            e = pick(self.rng, p)
+            if self.bound and any(x[0] == 'quant' and x[2] in self.bound for x in A.walk(e)):
+                # a remembered closed quantifier must not land under (or in the domain of) a binder of the same
+                # name: HPL forbids redefinition along a nesting path
+                return None
+            return e
         return None
 
     # -- typed productions ----------------------------------------------------------------
